@@ -7,6 +7,7 @@ import (
 	"fmt"
 	"io"
 	"reflect"
+	"sort"
 	"strings"
 
 	"github.com/gregoryv/mq"
@@ -128,6 +129,30 @@ func init() {
 		}()
 		return s
 	}
+	// the library's own words: tokens and two-token phrases of what fresh packets print
+	seen := map[string]bool{}
+	for typ := byte(1); typ <= 15; typ++ {
+		func() {
+			defer func() { recover() }()
+			p := drv.New(typ)
+			var sw sliceWriter
+			mq.Dump(&sw, p)
+			toks := strings.Fields(p.String() + " " + string(sw.b))
+			for i, w := range toks {
+				cands := []string{w}
+				if i+1 < len(toks) {
+					cands = append(cands, w+" "+toks[i+1])
+				}
+				for _, x := range cands {
+					if len(x) >= 3 && len(x) <= 24 && !seen[x] && !strings.Contains(x, "bytes") {
+						seen[x] = true
+						gen.LibraryWords = append(gen.LibraryWords, x)
+					}
+				}
+			}
+		}()
+	}
+	sort.Strings(gen.LibraryWords)
 	// injected transport errors may wrap errors of the library's own types
 	link.ExtraInner = append(link.ExtraInner,
 		func() error { return &mq.Malformed{} },
